@@ -294,14 +294,235 @@ theorem mu_lt_of_hops {n : Nat} {st st' : OptState} {nd : Nat} (hj : hopsSum st'
   · rw [hi]; omega
   · rw [hi]; simp only [List.length_append, List.length_singleton]; omega
 
+/-! ### the shape the termination argument needs
+
+  `optimizeJourney` is also run on journeys without an access step (accessibility calculation).
+  The termination argument only needs the legs to be valid, whatever non-leg steps precede them. -/
+
+/-- steps without connections, then valid legs, then the egress step -/
+def JShape (cx : Ctx) (C : List Conn) (j : List JStep) : Prop :=
+  ∃ P legs egr, j = P ++ legs ++ [egr] ∧ (∀ a ∈ P, a.enter = none) ∧ egr.enter = none ∧ legs ≠ [] ∧ LegsOK cx C legs
+
+theorem JourneyOK.shape {cx : Ctx} {C : List Conn} {bd : Int} {j : List JStep} (h : JourneyOK cx C bd j) : JShape cx C j := by
+  obtain ⟨acc, legs, egr, hj, ha, he, hne, hok, _⟩ := h
+  exact ⟨[acc], legs, egr, hj, by intro a h; simp at h; subst h; exact ha, he, hne, hok⟩
+
+structure Setup' (cx : Ctx) (C : List Conn) (j : List JStep) (f : Found)
+    (P : List JStep) (egr : JStep) (A : List JStep) (F : JStep) (M : List JStep) (T : JStep) (B : List JStep)
+    (eF xF eT xT : Conn) : Prop where
+  hj : j = (P ++ A) ++ F :: (M ++ T :: (B ++ [egr]))
+  hfrom : (P ++ A).length = f.from_
+  hto : (P ++ A).length + 1 + M.length = f.to
+  hP : ∀ a ∈ P, a.enter = none
+  hegr : egr.enter = none
+  hok : LegsOK cx C (A ++ F :: (M ++ T :: B))
+  hFe : F.enter = some eF
+  hFx : F.exit = some xF
+  hTe : T.enter = some eT
+  hTx : T.exit = some xT
+  hrF : Ride C eF xF
+  hrT : Ride C eT xT
+  n1 : f.case = 1 → f.node = xT.arrStop
+  n2 : f.case = 2 → f.node = xF.arrStop
+  n3 : f.case = 3 → f.node = eT.depStop
+
+theorem setup_of' {cx : Ctx} {C : List Conn} {j : List JStep} {f : Found}
+    (hJ : JShape cx C j) (hf : FoundSpec j f) :
+    ∃ P egr A F M T B eF xF eT xT, Setup' cx C j f P egr A F M T B eF xF eT xT := by
+  obtain ⟨P, legs, egr, hj, hP, he, hne, hok⟩ := hJ
+  obtain ⟨eF, xF, eT, xT, h1, h2, h3, h4, n1, n2, n3⟩ := hf.legs
+  have hjl : j.length = P.length + legs.length + 1 := by rw [hj]; simp; omega
+  have hfromP : P.length ≤ f.from_ := by
+    rcases Nat.lt_or_ge f.from_ P.length with hlt | hge
+    · exfalso
+      have hg : j.getD f.from_ {} = P[f.from_] := by
+        rw [hj]
+        simp only [List.getD, List.append_assoc, List.getElem?_append_left hlt, List.getElem?_eq_getElem hlt, Option.getD_some]
+      rw [hg, hP _ (List.getElem_mem hlt)] at h1
+      cases h1
+    · exact hge
+  have hto1 : f.to < P.length + legs.length := by
+    have hlt := hf.len
+    rcases Nat.lt_or_ge f.to (P.length + legs.length) with h | h
+    · exact h
+    · exfalso
+      have hto : f.to = (P ++ legs).length := by simp; omega
+      have hg : j.getD f.to {} = egr := by
+        rw [hj, hto]
+        simp [List.getD]
+      rw [hg, he] at h3
+      cases h3
+  have hlt := hf.lt
+  obtain ⟨A, F, M, T, B, hl, hA, hM⟩ := decomp2 legs (f.from_ - P.length) (f.to - P.length) (by omega) (by omega)
+  have hjd : j = (P ++ A) ++ F :: (M ++ T :: (B ++ [egr])) := by rw [hj, hl]; simp
+  have hPl : (P ++ A).length = f.from_ := by simp; omega
+  have hPM : (P ++ A).length + 1 + M.length = f.to := by simp; omega
+  have hF : j.getD f.from_ {} = F := by rw [hjd, ← hPl]; exact getD_decomp_F _ _ _ _
+  have hT : j.getD f.to {} = T := by rw [hjd, ← hPM]; exact getD_decomp_T _ _ _ _ _ _
+  rw [hF] at h1 h2; rw [hT] at h3 h4
+  rw [hl] at hok
+  obtain ⟨e1, x1, a1, a2, a3⟩ := hok.isRide F (by simp)
+  obtain ⟨e2, x2, b1, b2, b3⟩ := hok.isRide T (by simp)
+  rw [h1] at a1; cases a1; rw [h2] at a2; cases a2
+  rw [h3] at b1; cases b1; rw [h4] at b2; cases b2
+  exact ⟨P, egr, A, F, M, T, B, eF, xF, eT, xT, ⟨hjd, hPl, hPM, hP, he, hok, h1, h2, h3, h4, a3, b3, n1, n2, n3⟩⟩
+
+theorem Setup'.shape1 {cx : Ctx} {C : List Conn} {j : List JStep} {f : Found} {P : List JStep} {egr : JStep} {A : List JStep}
+    {F : JStep} {M : List JStep} {T : JStep} {B : List JStep} {eF xF eT xT : Conn}
+    (s : Setup' cx C j f P egr A F M T B eF xF eT xT) {L : List JStep} (hne : L ≠ []) (hok : LegsOK cx C L) :
+    JShape cx C (P ++ L ++ [egr]) :=
+  ⟨P, L, egr, rfl, s.hP, s.hegr, hne, hok⟩
+
+/-- the four rewrites keep the shape -/
+theorem applyFound_shape {cx : Ctx} {C : List Conn} (w : TimeWF cx C) (hs : SliceOK cx C)
+    {st : OptState} {f : Found} (hJ : JShape cx C st.journey) (hf : FoundSpec st.journey f) :
+    JShape cx C (applyFound cx.ds st f).1.journey := by
+  obtain ⟨P, egr, A, F, M, T, B, eF, xF, eT, xT, su⟩ := setup_of' hJ hf
+  have hgF : st.journey.getD f.from_ {} = F := by rw [su.hj, ← su.hfrom]; exact getD_decomp_F _ _ _ _
+  have hgT : st.journey.getD f.to {} = T := by rw [su.hj, ← su.hto]; exact getD_decomp_T _ _ _ _ _ _
+  have sliceF := hs eF su.hrF.1 xF su.hrF.2.1 su.hrF.2.2.1 su.hrF.2.2.2.1
+  have sliceT := hs eT su.hrT.1 xT su.hrT.2.1 su.hrT.2.2.1 su.hrT.2.2.2.1
+  have newExit : ∀ c ∈ revSlice cx.ds eF.trip (eF.seq - 1) (xF.seq - 1), c.canUnboard = true →
+      Ride C eF c ∧ c.arr ≤ xF.arr := by
+    intro c hc hcu
+    obtain ⟨a, b, c1, d⟩ := sliceF c hc
+    exact ⟨⟨su.hrF.1, a, b.symm, c1, su.hrF.2.2.2.2.1, hcu⟩,
+      w.arrMono c a xF su.hrF.2.1 (by rw [b, su.hrF.2.2.1]) d⟩
+  have newEnter : ∀ c ∈ revSlice cx.ds eT.trip (eT.seq - 1) (xT.seq - 1), c.canBoard = true →
+      Ride C c xT ∧ eT.dep ≤ c.dep ∧ c.effWait cx.p.minWait = eT.effWait cx.p.minWait := by
+    intro c hc hcb
+    obtain ⟨a, b, c1, d⟩ := sliceT c hc
+    exact ⟨⟨a, su.hrT.2.1, by rw [b, su.hrT.2.2.1], d, hcb, su.hrT.2.2.2.2.2⟩,
+      w.depMono eT su.hrT.1 c a b.symm c1, w.waitTrip c a eT su.hrT.1 b⟩
+  have fin2 : ∀ (F' T' : JStep), LegsOK cx C (A ++ F' :: T' :: B) →
+      JShape cx C ((P ++ A) ++ F' :: T' :: (B ++ [egr])) := by
+    intro F' T' hok
+    have := su.shape1 (L := A ++ F' :: T' :: B) (by simp) hok
+    simpa using this
+  have fin1 : ∀ (F' : JStep), LegsOK cx C (A ++ F' :: B) → JShape cx C ((P ++ A) ++ F' :: (B ++ [egr])) := by
+    intro F' hok
+    have := su.shape1 (L := A ++ F' :: B) (by simp) hok
+    simpa using this
+  unfold applyFound
+  rcases hf.cases with h1 | h2 | h3 | h4
+  · -- CSL
+    simp only [h1, hgF, hgT, su.hFe, su.hFx]
+    cases hfind : (revSlice cx.ds eF.trip (eF.seq - 1) (xF.seq - 1)).find? (fun c => decide (c.arrStop = f.node)) with
+    | none => exact hJ
+    | some c =>
+      simp only
+      obtain ⟨hcm, hcp⟩ := find_some_mem hfind
+      have hcn : c.arrStop = f.node := by simpa using hcp
+      split
+      · exact hJ
+      · rename_i hcu
+        have hcu' : c.canUnboard = true := by simpa using hcu
+        obtain ⟨hr, ha⟩ := newExit c hcm hcu'
+        have hl : (modifyAt (eraseRange (modifyAt st.journey f.from_ fun s => { s with walk := T.walk, dist := T.dist })
+            (f.from_ + 1) (f.to + 1)) f.from_ fun s => { s with exit := some c })
+            = (P ++ A) ++ ({ F with walk := T.walk, dist := T.dist, exit := some c } : JStep) :: (B ++ [egr]) := by
+          rw [su.hj, ← su.hfrom, ← su.hto]
+          exact csl_lists _ _ _ _ _ _ _
+        simp only [hl]
+        have hok := splice1 w su.hok su.hFe su.hFx su.hTe su.hTx su.hrT
+          (F' := { F with walk := T.walk, dist := T.dist, exit := some c }) su.hFe rfl rfl hr ha (by rw [hcn, su.n1 h1])
+        exact fin1 _ hok
+  · -- BTS
+    simp only [h2, hgF, hgT, su.hTe, su.hTx]
+    cases hfind : (revSlice cx.ds eT.trip (eT.seq - 1) (xT.seq - 1)).find? (fun c => decide (c.depStop = f.node)) with
+    | none => exact hJ
+    | some c =>
+      simp only
+      obtain ⟨hcm, hcp⟩ := find_some_mem hfind
+      have hcn : c.depStop = f.node := by simpa using hcp
+      split
+      · exact hJ
+      · rename_i hcb
+        have hcb' : c.canBoard = true := by simpa using hcb
+        obtain ⟨hr, hd, hw⟩ := newEnter c hcm hcb'
+        have hl : eraseRange (modifyAt (modifyAt st.journey f.to fun s => { s with enter := some c }) f.from_
+              fun s => { s with walk := 0, dist := 0 }) (f.from_ + 1) f.to
+            = (P ++ A) ++ ({ F with walk := 0, dist := 0 } : JStep) :: ({ T with enter := some c } : JStep) :: (B ++ [egr]) := by
+          rw [su.hj, ← su.hfrom, ← su.hto]
+          exact bts_lists _ _ _ _ _ _ _
+        simp only [hl]
+        have hok := splice2 w su.hok su.hFe su.hFx su.hTe su.hTx
+          (F' := { F with walk := 0, dist := 0 }) (T' := { T with enter := some c })
+          su.hFe su.hFx rfl su.hrF (Int.le_refl _) rfl su.hTx rfl hr hd hw (by rw [hcn, su.n2 h2])
+        exact fin2 _ _ hok
+  · -- GTF
+    simp only [h3, hgF, hgT, su.hFe, su.hFx]
+    cases hfind : (revSlice cx.ds eF.trip (eF.seq - 1) (xF.seq - 1)).find? (fun c => decide (c.arrStop = f.node)) with
+    | none => exact hJ
+    | some c =>
+      simp only
+      obtain ⟨hcm, hcp⟩ := find_some_mem hfind
+      have hcn : c.arrStop = f.node := by simpa using hcp
+      split
+      · exact hJ
+      · rename_i hcu
+        have hcu' : c.canUnboard = true := by simpa using hcu
+        obtain ⟨hr, ha⟩ := newExit c hcm hcu'
+        have hl : eraseRange (modifyAt st.journey f.from_ fun s => { s with exit := some c, walk := 0, dist := 0 })
+              (f.from_ + 1) f.to
+            = (P ++ A) ++ ({ F with exit := some c, walk := 0, dist := 0 } : JStep) :: T :: (B ++ [egr]) := by
+          rw [su.hj, ← su.hfrom, ← su.hto]
+          exact gtf_lists _ _ _ _ _ _
+        simp only [hl]
+        have hok := splice2 w su.hok su.hFe su.hFx su.hTe su.hTx
+          (F' := { F with exit := some c, walk := 0, dist := 0 }) (T' := T)
+          su.hFe rfl rfl hr ha su.hTe su.hTx rfl su.hrT (Int.le_refl _) rfl (by rw [hcn, su.n3 h3])
+        exact fin2 _ _ hok
+  · -- CSS
+    simp only [h4, hgF, hgT, su.hFe, su.hFx, su.hTe, su.hTx]
+    cases hex : cssExit f.node (revSlice cx.ds eF.trip (eF.seq - 1) (xF.seq - 1)) none with
+    | none =>
+      obtain ⟨ig', heq⟩ := cssEnter_none f.node f.from_ f.to (revSlice cx.ds eT.trip (eT.seq - 1) (xT.seq - 1))
+        st.journey st.ignore st.used false
+      simp only [heq]
+      exact hJ
+    | some x =>
+      obtain ⟨hxm, hxn, hxu⟩ := cssExit_spec f.node _ none x (by intro y hy; cases hy) hex
+      have hxm' : x ∈ revSlice cx.ds eF.trip (eF.seq - 1) (xF.seq - 1) := by
+        rcases hxm with h | h
+        · exact h
+        · cases h
+      obtain ⟨F1, T1, ig', us', ap', heq, r0, r1⟩ := cssEnter_some f.node (P ++ A) F M T (B ++ [egr]) x
+        (revSlice cx.ds eT.trip (eT.seq - 1) (xT.seq - 1)) (revSlice cx.ds eT.trip (eT.seq - 1) (xT.seq - 1))
+        F T st.ignore st.used false (fun c hc => hc) (fun _ => ⟨rfl, rfl⟩) (by intro h; cases h)
+      rw [su.hto, su.hfrom, ← su.hj] at heq
+      simp only [heq]
+      cases ap' with
+      | false =>
+        obtain ⟨rF, rT⟩ := r0 rfl
+        subst rF; subst rT
+        simp only [Bool.false_eq_true, if_false]
+        rw [← su.hj]; exact hJ
+      | true =>
+        obtain ⟨c, rF, hcS, hcn, hcb, rT⟩ := r1 rfl
+        subst rF; subst rT
+        simp only [if_true]
+        obtain ⟨hrx, hax⟩ := newExit x hxm' hxu
+        obtain ⟨hrc, hd, hw⟩ := newEnter c hcS hcb
+        have hl : eraseRange (modifyAt ((P ++ A) ++ ({ F with exit := some x } : JStep) :: (M ++ ({ T with enter := some c } : JStep) :: (B ++ [egr])))
+              f.from_ fun s => { s with walk := 0, dist := 0 }) (f.from_ + 1) f.to
+            = (P ++ A) ++ ({ F with exit := some x, walk := 0, dist := 0 } : JStep) :: ({ T with enter := some c } : JStep) :: (B ++ [egr]) := by
+          rw [← su.hfrom, ← su.hto]
+          exact gtf_lists _ _ _ _ _ _
+        simp only [hl]
+        have hok := splice2 w su.hok su.hFe su.hFx su.hTe su.hTx
+          (F' := { F with exit := some x, walk := 0, dist := 0 }) (T' := { T with enter := some c })
+          su.hFe rfl rfl hrx hax rfl su.hTx rfl hrc hd hw (by rw [hxn, hcn])
+        exact fin2 _ _ hok
+
 /-- **one iteration of the clean-up that continues makes progress** -/
 theorem applyFound_measure {cx : Ctx} {C : List Conn} (w : TimeWF cx C) (hs : SliceOK cx C) (hb : BetweenOK cx C)
-    (hu : UniqueSeq C) {bd : Int} {st : OptState} {f : Found} (hJ : JourneyOK cx C bd st.journey)
+    (hu : UniqueSeq C) {st : OptState} {f : Found} (hJ : JShape cx C st.journey)
     (hf : FoundSpec st.journey f) (hm : FoundMore cx.ds st.ignore st.journey f) (hig : IgnOK cx.ds.nStops st.ignore)
     (hcont : (applyFound cx.ds st f).2 = true) :
     IgnOK cx.ds.nStops (applyFound cx.ds st f).1.ignore ∧
       mu cx.ds.nStops (applyFound cx.ds st f).1 < mu cx.ds.nStops st := by
-  obtain ⟨acc, egr, A, F, M, T, B, eF, xF, eT, xT, su⟩ := setup_of hJ hf
+  obtain ⟨P, egr, A, F, M, T, B, eF, xF, eT, xT, su⟩ := setup_of' hJ hf
   have hgF : st.journey.getD f.from_ {} = F := by rw [su.hj, ← su.hfrom]; exact getD_decomp_F _ _ _ _
   have hgT : st.journey.getD f.to {} = T := by rw [su.hj, ← su.hto]; exact getD_decomp_T _ _ _ _ _ _
   have sliceF := hs eF su.hrF.1 xF su.hrF.2.1 su.hrF.2.2.1 su.hrF.2.2.2.1
@@ -346,12 +567,12 @@ theorem applyFound_measure {cx : Ctx} {C : List Conn} (w : TimeWF cx C) (hs : Sl
       · simp only [hcu, not_true_eq_false, if_false]
         have hl : (modifyAt (eraseRange (modifyAt st.journey f.from_ fun s => { s with walk := T.walk, dist := T.dist })
             (f.from_ + 1) (f.to + 1)) f.from_ fun s => { s with exit := some c })
-            = (acc :: A) ++ ({ F with walk := T.walk, dist := T.dist, exit := some c } : JStep) :: (B ++ [egr]) := by
+            = (P ++ A) ++ ({ F with walk := T.walk, dist := T.dist, exit := some c } : JStep) :: (B ++ [egr]) := by
           rw [su.hj, ← su.hfrom, ← su.hto]
           exact csl_lists _ _ _ _ _ _ _
         simp only [hl]
         refine ⟨hig, mu_lt_of_hops (nd := 0) ?_ (Or.inl rfl)⟩
-        show hopsSum ((acc :: A) ++ ({ F with walk := T.walk, dist := T.dist, exit := some c } : JStep) :: (B ++ [egr])) < hopsSum st.journey
+        show hopsSum ((P ++ A) ++ ({ F with walk := T.walk, dist := T.dist, exit := some c } : JStep) :: (B ++ [egr])) < hopsSum st.journey
         have hF' := legHops_of (l := { F with walk := T.walk, dist := T.dist, exit := some c }) (e := eF) (x := c) su.hFe rfl
         have := before c hcm (by rw [hcn]; exact hne)
         rw [su.hj]
@@ -385,12 +606,12 @@ theorem applyFound_measure {cx : Ctx} {C : List Conn} (w : TimeWF cx C) (hs : Sl
       · simp only [hcu, not_true_eq_false, if_false]
         have hl : eraseRange (modifyAt st.journey f.from_ fun s => { s with exit := some c, walk := 0, dist := 0 })
               (f.from_ + 1) f.to
-            = (acc :: A) ++ ({ F with exit := some c, walk := 0, dist := 0 } : JStep) :: T :: (B ++ [egr]) := by
+            = (P ++ A) ++ ({ F with exit := some c, walk := 0, dist := 0 } : JStep) :: T :: (B ++ [egr]) := by
           rw [su.hj, ← su.hfrom, ← su.hto]
           exact gtf_lists _ _ _ _ _ _
         simp only [hl]
         refine ⟨hig, mu_lt_of_hops (nd := 0) ?_ (Or.inl rfl)⟩
-        show hopsSum ((acc :: A) ++ ({ F with exit := some c, walk := 0, dist := 0 } : JStep) :: T :: (B ++ [egr])) < hopsSum st.journey
+        show hopsSum ((P ++ A) ++ ({ F with exit := some c, walk := 0, dist := 0 } : JStep) :: T :: (B ++ [egr])) < hopsSum st.journey
         have hF' := legHops_of (l := { F with exit := some c, walk := 0, dist := 0 }) (e := eF) (x := c) su.hFe rfl
         have := before c hcm (by rw [hcn]; exact hne)
         rw [su.hj]
@@ -434,7 +655,7 @@ theorem applyFound_measure {cx : Ctx} {C : List Conn} (w : TimeWF cx C) (hs : Sl
         rcases hxm with h | h
         · exact h
         · cases h
-      obtain ⟨F1, T1, ig', us', ap', heq, r0, r1⟩ := cssEnter_some f.node (acc :: A) F M T (B ++ [egr]) x
+      obtain ⟨F1, T1, ig', us', ap', heq, r0, r1⟩ := cssEnter_some f.node (P ++ A) F M T (B ++ [egr]) x
         (revSlice cx.ds eT.trip (eT.seq - 1) (xT.seq - 1)) (revSlice cx.ds eT.trip (eT.seq - 1) (xT.seq - 1))
         F T st.ignore st.used false (fun c hc => hc) (fun _ => ⟨rfl, rfl⟩) (by intro h; cases h)
       rw [su.hto, su.hfrom, ← su.hj] at heq
@@ -461,9 +682,9 @@ theorem applyFound_measure {cx : Ctx} {C : List Conn} (w : TimeWF cx C) (hs : Sl
         obtain ⟨c, rF, hcS, hcn, hcb, rT⟩ := r1 rfl
         subst rF; subst rT
         simp only [if_true]
-        have hl : eraseRange (modifyAt ((acc :: A) ++ ({ F with exit := some x } : JStep) :: (M ++ ({ T with enter := some c } : JStep) :: (B ++ [egr])))
+        have hl : eraseRange (modifyAt ((P ++ A) ++ ({ F with exit := some x } : JStep) :: (M ++ ({ T with enter := some c } : JStep) :: (B ++ [egr])))
               f.from_ fun s => { s with walk := 0, dist := 0 }) (f.from_ + 1) f.to
-            = (acc :: A) ++ ({ F with exit := some x, walk := 0, dist := 0 } : JStep) :: ({ T with enter := some c } : JStep) :: (B ++ [egr]) := by
+            = (P ++ A) ++ ({ F with exit := some x, walk := 0, dist := 0 } : JStep) :: ({ T with enter := some c } : JStep) :: (B ++ [egr]) := by
           rw [← su.hfrom, ← su.hto]
           exact gtf_lists _ _ _ _ _ _
         simp only [hl]
@@ -472,7 +693,7 @@ theorem applyFound_measure {cx : Ctx} {C : List Conn} (w : TimeWF cx C) (hs : Sl
           · rw [h]; exact hig
           · rw [h]; exact hok1
         refine ⟨hig2, mu_lt_of_hops (nd := f.node) ?_ hign.1⟩
-        show hopsSum ((acc :: A) ++ ({ F with exit := some x, walk := 0, dist := 0 } : JStep) :: ({ T with enter := some c } : JStep) :: (B ++ [egr])) < hopsSum st.journey
+        show hopsSum ((P ++ A) ++ ({ F with exit := some x, walk := 0, dist := 0 } : JStep) :: ({ T with enter := some c } : JStep) :: (B ++ [egr])) < hopsSum st.journey
         have hF' := legHops_of (l := { F with exit := some x, walk := 0, dist := 0 }) (e := eF) (x := x) su.hFe rfl
         have hT' := legHops_of (l := { T with enter := some c }) (e := c) (x := xT) rfl su.hTx
         have h1 := before x hxm' (by rw [hxn]; exact hne)
@@ -485,8 +706,8 @@ theorem applyFound_measure {cx : Ctx} {C : List Conn} (w : TimeWF cx C) (hs : Sl
 
 /-- the `while` of `optimizeJourney` ends before the fuel does -/
 theorem optimizeLoop_terminates {cx : Ctx} {C : List Conn} (w : TimeWF cx C) (hs : SliceOK cx C) (hb : BetweenOK cx C)
-    (hu : UniqueSeq C) {bd : Int} :
-    ∀ (fuel : Nat) (st : OptState), JourneyOK cx C bd st.journey → IgnOK cx.ds.nStops st.ignore →
+    (hu : UniqueSeq C) :
+    ∀ (fuel : Nat) (st : OptState), JShape cx C st.journey → IgnOK cx.ds.nStops st.ignore →
       mu cx.ds.nStops st < fuel → ∃ o, optimizeLoop cx.ds fuel st = some o := by
   intro fuel
   induction fuel with
@@ -500,7 +721,7 @@ theorem optimizeLoop_terminates {cx : Ctx} {C : List Conn} (w : TimeWF cx C) (hs
       simp only
       have hf : FoundSpec st.journey f := searchJourney_spec cx.ds st.ignore st.journey st.journey [] f rfl hsj
       have hm : FoundMore cx.ds st.ignore st.journey f := searchJourney_more cx.ds st.ignore st.journey st.journey [] f rfl hsj
-      have hnext := applyFound_ok w hs hJ hf
+      have hnext := applyFound_shape w hs hJ hf
       by_cases hc : (applyFound cx.ds st f).2 = true
       · rw [if_pos hc]
         obtain ⟨h1, h2⟩ := applyFound_measure w hs hb hu hJ hf hm hig hc
@@ -509,14 +730,19 @@ theorem optimizeLoop_terminates {cx : Ctx} {C : List Conn} (w : TimeWF cx C) (hs
 
 /-- **the journey clean-up terminates**: on a valid journey over well-formed data `optimizeJourney`
     never runs out of the model's fuel -/
-theorem optimizeJourney_terminates {cx : Ctx} {C : List Conn} (w : TimeWF cx C) (hs : SliceOK cx C) (hb : BetweenOK cx C)
-    (hu : UniqueSeq C) {bd : Int} {j : List JStep} (hJ : JourneyOK cx C bd j) :
+theorem optimizeJourney_terminates' {cx : Ctx} {C : List Conn} (w : TimeWF cx C) (hs : SliceOK cx C) (hb : BetweenOK cx C)
+    (hu : UniqueSeq C) {j : List JStep} (hJ : JShape cx C j) :
     ∃ o, optimizeJourney cx.ds j = some o := by
   unfold optimizeJourney
-  apply optimizeLoop_terminates w hs hb hu (bd := bd) _ { journey := j } hJ ⟨List.nodup_nil, fun x hx => by cases hx⟩
+  apply optimizeLoop_terminates w hs hb hu _ { journey := j } hJ ⟨List.nodup_nil, fun x hx => by cases hx⟩
   unfold mu optimizeFuel
   show hopsSum j + (cx.ds.nStops - 0) < (j.map legHops).sum + cx.ds.nStops + 2
   unfold hopsSum
   omega
+
+theorem optimizeJourney_terminates {cx : Ctx} {C : List Conn} (w : TimeWF cx C) (hs : SliceOK cx C) (hb : BetweenOK cx C)
+    (hu : UniqueSeq C) {bd : Int} {j : List JStep} (hJ : JourneyOK cx C bd j) :
+    ∃ o, optimizeJourney cx.ds j = some o :=
+  optimizeJourney_terminates' w hs hb hu hJ.shape
 
 end Tr
